@@ -105,7 +105,8 @@ SigD(p, C, O, n, S, M) ==
 SemEqC(p, q, S, M) ==
   LET vs == VarsOf(p) \cup VarsOf(q)
       maxN == IF Cardinality(vs) <= 1 THEN 3 ELSE IF Cardinality(vs) = 2 THEN 2 ELSE 1 IN
-  IF ~DenseOK(p) \/ ~DenseOK(q) THEN p = q
+  \* (a formula with prev / next / rise / fall has no dense-time meaning, but its tree still means what it means in discrete time)
+  IF ~DenseOK(p) \/ ~DenseOK(q) THEN SemEq(p, q, S, M)
   ELSE \A n \in 1..maxN : \A C \in [vs -> [1..n -> {-2 * S, S, 3 * S}]] : SigC(p, C, n, S, M) = SigC(q, C, n, S, M)
 
 ---------------------------------------------------------------------------
